@@ -120,17 +120,27 @@ func (in *Interp) runBody(fr *frame, args []Value, env []Value) Value {
 type monitor struct {
 	frozen     map[*Value]string
 	frozenMaps map[*Map]string
+	race       bool
+	acc        map[*Value]*cellAccess
+	raced      map[string]bool
 }
 
 func (in *Interp) ensureMonitor() {
 	if in.mon == nil {
-		in.mon = &monitor{frozen: map[*Value]string{}, frozenMaps: map[*Map]string{}}
+		in.mon = &monitor{frozen: map[*Value]string{}, frozenMaps: map[*Map]string{}, acc: map[*Value]*cellAccess{}, raced: map[string]bool{}}
 	}
 }
 
-func (m *monitor) onRead(fr *frame, addr *Value, pos token.Pos) {}
+func (m *monitor) onRead(fr *frame, addr *Value, pos token.Pos) {
+	if m.race && fr != nil {
+		m.raceRead(fr.in, fr, addr, pos)
+	}
+}
 
 func (m *monitor) onWrite(fr *frame, addr *Value, pos token.Pos) {
+	if m.race && fr != nil {
+		m.raceWrite(fr.in, fr, addr, pos)
+	}
 	if tag, ok := m.frozen[addr]; ok {
 		in := fr.in
 		where := fr.pos(pos)
@@ -251,59 +261,6 @@ func (in *Interp) sharesMemory(a, b Value) bool {
 		}
 	})
 	return shared
-}
-
-// ---------- goroutines / channels (sequential model; see conc.go for the scheduler) ----------
-
-type goroutine struct {
-	id int
-}
-
-type scheduler struct{}
-
-func (s *scheduler) drain(in *Interp) {}
-
-func (in *Interp) spawn(fr *frame, instr *ssa.Go, fn Value, args []Value) {
-	in.note("go statement executed synchronously at spawn (single schedule)")
-	in.call(fr, instr.Pos(), fn, args)
-}
-
-func (in *Interp) chanSend(fr *frame, ch *Chan, v Value) {
-	if ch == nil {
-		in.unsupported("send on nil channel (blocks forever)")
-	}
-	if ch.closed {
-		panic(targetPanic{msg: "send on closed channel", rt: true})
-	}
-	ch.buf = append(ch.buf, copyVal(v))
-}
-
-func (in *Interp) chanRecv(fr *frame, ch *Chan, elem types.Type) (Value, bool) {
-	if ch == nil {
-		in.unsupported("receive from nil channel (blocks forever)")
-	}
-	if len(ch.buf) > 0 {
-		v := ch.buf[0]
-		ch.buf = ch.buf[1:]
-		return v, true
-	}
-	if ch.closed {
-		return in.zero(elem), false
-	}
-	in.unsupported("receive would block (sequential goroutine model)")
-	return nil, false
-}
-
-func (in *Interp) chanClose(fr *frame, ch *Chan) {
-	if ch == nil || ch.closed {
-		panic(targetPanic{msg: "close of nil or closed channel", rt: true})
-	}
-	ch.closed = true
-}
-
-func (in *Interp) doSelect(fr *frame, instr *ssa.Select) Value {
-	in.unsupported("select statement")
-	return nil
 }
 
 type fsModel struct{}
